@@ -4,7 +4,7 @@ import copy as _copy
 
 PROP = "C15"
 LEVEL = "proof"
-RULE = ("random multifurcating trees (3..14 tips, 30 in thorough; rooted/unrooted; parent slot at random positions; lengths "
+RULE = ("random multifurcating trees (3..14 tips, 20 in thorough; rooted/unrooted; parent slot at random positions; lengths "
         "all/mixed/none with zeros; supports; named inner nodes; node and branch comments) x "
         "clone x 8 edits (rename, length, support, comment, clearcomments, removetip, reroot, graft) applied to the copy then, on a "
         "fresh pair, to the original, with and without ReinitIndexes; subtree at every node index (inner nodes and tips) x edit; "
@@ -45,7 +45,7 @@ MATCHERS = {}
 EDITS = ["rename", "length", "support", "comment", "clearcomments", "removetip", "reroot", "graft"]
 
 def rand_tree(g, rng, tier, prefix="t", lo=3, hi=None, rooted=None, comments=None, inner_names=None, ntips=None):
-    hi = hi or (14 if tier != "thorough" else 30)
+    hi = hi or (14 if tier != "thorough" else 20)
     return g.tree(ntips=ntips, lo=lo, hi=hi, maxdeg=5, prefix=prefix, rooted=rooted,
                   lenmode=rng.choice(["all", "all", "mixed", "mixed", "none"]),
                   supmode=rng.choice(["mixed", "mixed", "all", "none"]),
@@ -107,7 +107,7 @@ def gen(rng, tier):
             add({"op": Sym("graft"), "tree": T(t), "graft": T(gr), "tip": tip, "idx": True}, op="graft", root1=True)
         for old in [t["name"], rng.choice(leaves(t))]:
             add({"op": Sym("insert"), "tree": T(t), "groups": [[old, "n0"]], "idx": True}, op="insert", root1=True)
-    N = {"quick": 60, "thorough": 1200, "search": 120}[tier]
+    N = {"quick": 60, "thorough": 400, "search": 120}[tier]
     # ---- clone
     for _ in range(N):
         t = rand_tree(g, rng, tier, comments=rng.random() < 0.6)
